@@ -1210,6 +1210,11 @@ Plan generate(const std::string& mode, uint64_t seed, uint64_t run) {
       if (what == 0) {
         extra = Val::arr();
         size_t n = widths[r.below(5)];
+        if (r.chance(1, 3)) {
+          // around the pool and slot-id boundaries of the small builds (128 pools of one slot, 255 slot ids)
+          static const size_t slotEdges[] = {126, 127, 128, 129, 130, 200, 246, 250, 253, 254, 255, 256, 260, 300};
+          n = slotEdges[r.below(14)];
+        }
         for (size_t j = 0; j < n; j++)
           extra.a.push_back(r.chance(1, 5) ? genScalar(r, go) : Val::integer(int64_t(j)));
       } else if (what == 1) {
